@@ -7,7 +7,7 @@ SPEC = {'level': 'exploration',
                  'private broadcast: connections are opened by the harness (no Tor/I2P sockets); caps checked on the PrivateBroadcast object (small caps by model, the '
                  'defaults 10,000 / 1,000 by one direct run)'],
  'stages': [gen('vh_c39', 'c39_getdata', 480, 8000, min_cases_quick=150, max_seconds_quick=120, max_seconds_thorough=1800,
-                floors={'served-pool-tx': 0.3, 'withheld-pool-tx': 0.3, 'block': 0.15, 'served-recent-block': 0.03, 'local-submit': 0.2},
+                floors={'served-pool-tx': 0.15, 'withheld-pool-tx': 0.3, 'block': 0.15, 'served-recent-block': 0.03, 'local-submit': 0.2},
                 rule='pool additions / SendMessages / getdata interleavings; non-trivial = a pool tx served and a pool tx withheld'),
             gen('vh_c39', 'c39_privbroadcast', 400, 7000, min_cases_quick=120, max_seconds_quick=100, max_seconds_thorough=1500,
                 floors={'private-submit': 0.6, 'pb-full-cycle': 0.1, 'probe-notfound': 0.2, 'pb-conn-up': 0.3},
